@@ -34,8 +34,8 @@ Inductive stmt :=
 | SUse (n : name)                                 (* an output that loads the name n *)
 | SIf (body els : list stmt)
 | SFor (recursive : bool) (body els : list stmt)
-| SInline (w : bool) (body : list stmt)           (* an inner frame: with / filter block / block set (true: also a scope of the
-                                                     undeclared-name visitor) or a bare nodes.Scope (false) *)
+| SInline (w : bool) (body : list stmt)           (* an inner frame and a scope of the undeclared-name visitor: with / filter block /
+                                                     block set (true) or a bare nodes.Scope (false) *)
 | SSame (body : list stmt)                        (* ScopedEvalContextModifier: body compiled in the very same frame
                                                      (the autoescape tag wraps it in a Scope: SInline false [SSame b]) *)
 | SMacro (params : list name) (body : list stmt)
@@ -118,8 +118,8 @@ Fixpoint uscan (s : stmt) (u : ustate) {struct s} : ustate :=
   | SAssignT true t => u_scope (fun v => v) (u_scope (u_stores (tgt_names t)) u)
   | SIf b e => u_scope (uscans e) (u_scope (uscans b) u)
   | SFor _ b e => u_scope (uscans e) (u_scope (uscans b) u)
-  | SInline true b => u_scope (uscans b) u
-  | SInline false b | SSame b => uscans b u
+  | SInline _ b => u_scope (uscans b) u
+  | SSame b => uscans b u
   | SMacro ps b => u_scope (fun v => uscans b (u_stores ps v)) u
   | SCallBlock ps us _ b => u_scope (fun v => uscans b (u_stores ps v)) (fold_left (fun u n => u_load n u) us u)
   | SBlock _ => u
@@ -131,6 +131,11 @@ Definition found_specials (body : list stmt) : list name :=
   snd (fst (uscans body ([CALLER; KWARGS; VARARGS], [], false))).
 Definition specials (ps : list name) (body : list stmt) : list name :=
   filter (fun n => memb n (found_specials body) && negb (memb n ps)) [CALLER; KWARGS; VARARGS].
+
+(* macro_body: a parameter spelled caller must have a default when the body uses caller (the skeleton's
+   parameters have no defaults): TemplateAssertionError *)
+Definition explicit_caller_ok (ps : list name) (body : list stmt) : bool :=
+  negb (memb CALLER ps && memb CALLER (found_specials body)).
 
 Section Gen.
   (* which template names are pure ASCII: a call with a keyword name that is not is emitted with all its
@@ -178,14 +183,14 @@ Section Gen.
     | SInline _ b => gens il false false b
     | SSame b => gens il lf bf b
     | SMacro ps b =>
-        if nodupb ps then
+        if nodupb ps && explicit_caller_ok ps b then
           match gens false false false b with
           | Ok pb => Ok [PDef (ps ++ specials ps b) pb; PSimple]
           | SyntaxErr => SyntaxErr
           end
         else SyntaxErr
     | SCallBlock ps _ kws b =>
-        if nodupb ps then
+        if nodupb ps && explicit_caller_ok ps b then
           match gens false false false b, gen_call true lf bf kws with
           | Ok pb, Ok pc => Ok (PDef (ps ++ specials ps b) pb :: pc)
           | _, _ => SyntaxErr
